@@ -504,7 +504,7 @@ def run(ctx):
     from .lib import coqio
     from .lib.runner import Outcome, Failure
     rng = ctx.rng
-    n = ctx.budget(18, 78)
+    n = ctx.budget(15, 78)
     configs = [dict(c) for c in ctx.corpus()]
     for w in ("debug", "cf", "slurm", "sge"):
         configs.append(gen_config(rng, 0, w))
